@@ -208,7 +208,8 @@ def lines_for_bytes(p, nbytes, sparse):
 
 
 def gen_C01(rng, tier):
-    out = all_bytes_battery(["read_all s=U e=U"])
+    out = all_bytes_battery(["read_all s=U e=U"]) + marker_word_battery(["read_all s=U e=U"])
+    out += payload_marker_battery(["read_all s=U e=U"])
     # directed: sparse series spanning several read buffers, so that consecutive
     # 16 KiB boundaries split sections (every payload class)
     for p in ([0, 1, 2, 3, 4, 8] if tier == "quick" else [0, 1, 2, 3, 4, 5, 8, 16, 200]):
@@ -531,7 +532,8 @@ def gen_C03(rng, tier):
 
 
 def gen_C04(rng, tier):
-    out = []
+    out = marker_word_battery(["files", "read_all s=U e=U", "len", "range"])
+    out += payload_marker_battery(["files", "read_all s=U e=U", "len", "range", "last_line"])
     obs = ["read_all s=U e=U", "len", "range", "last_line", "payload_size", "is_empty"]
     for h0 in _histories(rng, tier, PAYLOADS_ALL):
         h = Hist(h0.p, hdr=h0.hdr)
@@ -606,6 +608,114 @@ def marker_free(p, ts_list):
     return True
 
 
+def marker_word_battery(ops_after):
+    """INSIDE the region of the known finding (judged in region mode): payload sizes 0..3, the last
+    section's full timestamp has one 16-bit word equal to FFFF, the section holds 1..6 lines; close,
+    reopen, observe.  On the pinned tree model and code agree here (and mostly meet the
+    specification); code that repairs more, or less, than the model shows up as a divergence."""
+    out = []
+    for p in [0, 1, 2, 3]:
+        for word in [1, 2, 3]:
+            base = 0x1234 | (0xFFFF << (16 * word)) | (0x0101 << (16 * ((word % 3) + 1)) if word != 3 else 0x0101 << 16)
+            base &= U64
+            h = Hist(p)
+            h.new()
+            h.push(1000, pl=bytes(p))
+            for nlines in range(1, 7):
+                t0 = base + nlines * 100000
+                hh = Hist(p)
+                hh.new()
+                hh.push(1000, pl=bytes(p))
+                for k in range(nlines):
+                    hh.push(t0 + k, pl=bytes([k + 1] * p))
+                for o in ops_after:
+                    hh.op(o)
+                hh.reopen()
+                for o in ops_after:
+                    hh.op(o)
+                hh.push(t0 + 50, pl=bytes([9] * p))
+                for o in ops_after:
+                    hh.op(o)
+                out.append((f"marker-word-p{p}-w{word}-n{nlines}", hh.script()))
+    return out
+
+
+def payload_marker_battery(ops_after):
+    """FF FF inside the PAYLOAD of the last lines, at every byte offset, same offset in consecutive
+    lines or not: an intact file must survive a reopen byte for byte (tail checks that are not
+    line-aligned would take payload bytes for section markers)"""
+    out = []
+    for p in [2, 3, 4, 5, 8, 12]:
+        h = Hist(p)
+        h.new()
+        t = 1700000000
+        for off in range(0, max(p - 1, 1)):
+            for pattern in ("both", "last", "prev"):
+                def pl(mark):
+                    b = bytearray((i * 7 + off) % 250 for i in range(p))
+                    if mark and p >= 2:
+                        b[off:off + 2] = b"\xff\xff"
+                    return bytes(b)
+                h.push(t, pl=pl(False)); t += 10
+                h.push(t, pl=pl(pattern in ("both", "prev"))); t += 10
+                h.push(t, pl=pl(pattern in ("both", "last"))); t += 10
+                for o in ops_after:
+                    h.op(o)
+                h.reopen()
+                for o in ops_after:
+                    h.op(o)
+        out.append((f"payload-marker-p{p}", h.script()))
+    return out
+
+
+def script_tail_clean(script):
+    """generator-side TailClean for a whole script: with payload < 4, no timestamp that any push
+    of the script attempts, and no bucket mean a configured cache would store, may have a raw
+    timestamp line starting with FF FF (the recorded known finding marker-tail lives there);
+    scripts that never reopen anything are unaffected by the finding and pass"""
+    p = None
+    caches = set()
+    attempted = []
+    accepted = []
+    reopens = False
+    for line in script.splitlines():
+        f = line.split()
+        if not f:
+            continue
+        kv = dict(x.split("=", 1) for x in f[1:] if "=" in x)
+        if f[0] == "new":
+            p = int(kv["p"])
+        if f[0] in ("new", "open") and kv.get("caches", "-") != "-":
+            caches.update(int(b) for b in kv["caches"].split(","))
+        if f[0] == "open":
+            reopens = True
+        if f[0] == "push":
+            t = int(kv["ts"])
+            attempted.append(t)
+            if not accepted or t > accepted[-1]:
+                accepted.append(t)
+        if f[0] == "pushrun":
+            t, step, cnt = int(kv["ts0"]), int(kv["step"]), int(kv["count"])
+            for _ in range(cnt):
+                if t > U64:
+                    break
+                attempted.append(t)
+                if not accepted or t > accepted[-1]:
+                    accepted.append(t)
+                t += step
+    if p is None or p >= 4 or not reopens:
+        return True
+    if not marker_free(p, attempted):
+        return False
+    for B in caches:
+        if B <= 0:
+            continue
+        means = [sum(accepted[i:i + B]) // B for i in range(0, len(accepted) - B + 1, B)]
+        if not marker_free(p, means):
+            return False
+    return True
+
+
 # ====================================================================== C05 / C06
 
 def _after_open_obs(h, rng, appends=True):
@@ -625,7 +735,9 @@ def _after_open_obs(h, rng, appends=True):
 
 
 def gen_C05(rng, tier):
-    out = []
+    out = marker_word_battery(["files", "read_all s=U e=U", "len"])
+    # index lagging by its last entry while the last section header straddles a search window
+    out += window_sweep_battery(tier, [8] if tier == "quick" else [8, 4, 0])
     nh = 10 if tier == "quick" else 80
     pls = [0, 1, 2, 3, 4, 5, 8, 204]
     for i in range(nh):
@@ -770,28 +882,13 @@ def gen_C05(rng, tier):
     return out
 
 
-def gen_C06(rng, tier):
+def window_sweep_battery(tier, ps):
     out = []
-    for p in ([0, 2, 4] if tier == "quick" else [0, 1, 2, 3, 4, 5, 8, 16]):
-        h = big_sparse(p, lines_for_bytes(p, 3 * 16384 + 700, True), seed=p + 31)
-        h.op("files")
-        for ix in ["rm index", "cut index 4", f"cut index {4 + 16 * 7}", f"cut index {4 + 16 * 7 + 5}", "cut index 2", None]:
-            h.op("close")
-            if ix:
-                h.op(ix)
-            h.open()
-            h.op("files")
-            h.op("len")
-            v = h.some_values(rng, 2)
-            h.op(f"read_all s=I:{min(v)} e=I:{max(v)}")
-            h.pushrun(h.last() + rng.choice([1, 70000]), 1, 3, 3)
-            h.op("files")
-        out.append((f"big-p{p}", h.script()))
     # directed: the backwards window scan for the last full timestamp.  The last section is
     # placed at every line offset around k windows before the end of the data, the index is
     # intact / lags by its last entry / is missing.
     WINDOW = 10000
-    for p in ([8, 4] if tier == "quick" else [8, 4, 5, 16, 0, 2]):
+    for p in ps:
         ls = p + 2
         wl = -(-WINDOW // ls)            # lines per window (window is rounded up to whole lines)
         sweep = [wl + d for d in range(-3, 4)] + ([2 * wl + d for d in range(-3, 4)] if tier != "quick" or p == 8 else [])
@@ -822,6 +919,27 @@ def gen_C06(rng, tier):
                 h.op("close")
                 h.op("files")
         out.append((f"window-sweep-p{p}", h.script()))
+    return out
+
+
+def gen_C06(rng, tier):
+    out = []
+    for p in ([0, 2, 4] if tier == "quick" else [0, 1, 2, 3, 4, 5, 8, 16]):
+        h = big_sparse(p, lines_for_bytes(p, 3 * 16384 + 700, True), seed=p + 31)
+        h.op("files")
+        for ix in ["rm index", "cut index 4", f"cut index {4 + 16 * 7}", f"cut index {4 + 16 * 7 + 5}", "cut index 2", None]:
+            h.op("close")
+            if ix:
+                h.op(ix)
+            h.open()
+            h.op("files")
+            h.op("len")
+            v = h.some_values(rng, 2)
+            h.op(f"read_all s=I:{min(v)} e=I:{max(v)}")
+            h.pushrun(h.last() + rng.choice([1, 70000]), 1, 3, 3)
+            h.op("files")
+        out.append((f"big-p{p}", h.script()))
+    out += window_sweep_battery(tier, [8, 4] if tier == "quick" else [8, 4, 5, 16, 0, 2])
     for h0 in _histories(rng, tier, PAYLOADS_SMALL + [16]):
         h = Hist(h0.p, hdr=h0.hdr)
         h.new()
@@ -1095,7 +1213,7 @@ def gen_C11(rng, tier):
 # ====================================================================== C16 C17 C18 C19
 
 def gen_C16(rng, tier):
-    out = []
+    out = marker_word_battery(["read_all s=U e=U", "len"])
     reads = ["read_all s=U e=U", "len", "range", "last_line", "is_empty", "payload_size", "n_lines s=U e=U",
              "read_first_n n=2 s=U e=U", "read_n n=3 s=U e=U", "page n=2"]
     for h0 in _histories(rng, tier, PAYLOADS_SMALL):
